@@ -14,14 +14,15 @@ HARNESS = 'c06_time'
 COQ_IMPORTS = 'From VRP Require Import Base.Tac Model.Core Spec.Feasible Model.Eval Model.TimeDep.'
 MODEL_TARGETS = ['theories/Model/TimeDep.vo']
 SHARD = 25
-SIZES = {'quick': 320, 'thorough': 6000, 'search': 3000}
+SIZES = {'quick': 280, 'thorough': 6000, 'search': 3000}
 RULE = ('cases: random worlds (3-6 locations, metric / non-metric asymmetric matrices, open / closed tours, finite / unbounded shift '
         'ends), tours of 0-5 activities, a single job with 1-2 places x 1-2 windows at position Any / Concrete / Last; half of the '
         'cases with RESERVED TIMES of the vehicle (1-2 required breaks [start, end] + duration as time windows or as offsets from the '
         'departure, the latest start placed on / next to an arrival, a departure, a service start or a window edge of the tour), the '
         'other half with TIME-DEPENDENT routing (2-4 matrices of the profile at timestamps 2^k apart, every entry changing with an '
         'integer slope in {-2 .. 2} per time unit between two timestamps: slope -1 is the FIFO boundary, -2 violates FIFO); a few with '
-        'both. non-trivial = distinct cases with a tour activity in which the feature is active (a break inside the tour horizon / '
+        'both; in a third of the cases the candidate is a pure DELAY (a service without window at the location in front of an inner '
+        'leg) whose length is the largest delay the simulation still finds feasible at that leg, -1 / +0 / +1 / +2. non-trivial = distinct cases with a tour activity in which the feature is active (a break inside the tour horizon / '
         'a duration that changes inside it).')
 TRUSTED = ['c06_time: the Python step-by-step simulation in tools/props/c06_time.py (break taken at its latest start: driving and '
            'service are suspended, waiting absorbs it; travel time = the interpolated duration at the departure time), cross-checked '
@@ -75,6 +76,13 @@ def gen_td(rng, w, decreasing_bias=False):
             cur.append(y if y >= 0 else x)
         dist = [d + rng.range(0, 5) if d > 0 else 0 for d in ms[-1]['dist']]
         ms.append({'ts': t0 + i * gap, 'dur': cur, 'dist': dist})
+    if rng.chance(1, 25):
+        # the unreachable marker (-1) in one cell of one matrix: interpolate_duration keeps the left value next to it
+        m = rng.choice(ms)
+        cells = [k for k, x in enumerate(m['dur']) if x > 0]
+        if cells:
+            m['dur'] = list(m['dur'])
+            m['dur'][rng.choice(cells)] = -1
     return rng.shuffle(ms) if rng.chance(1, 4) else ms
 
 
@@ -133,8 +141,36 @@ def generate(rng, tier, n):
         c['pos'] = 'any' if q < 6 else ('last' if q < 7 else ['concrete', rng.below(len(tour) + 3)])
         if use_rt:
             c['reserved'] = gen_reserved(rng, c)
+        if tour and rng.chance(1, 3):
+            boundary_job(rng, c)
         cases.append(c)
     return cases
+
+
+def boundary_job(rng, c):
+    """replace the candidate by a pure delay (a service of length s at the location of the activity in front of an inner leg, no
+    window, no demand) whose length sits on the TRUE boundary of that leg: the largest delay the simulation still finds feasible,
+    -1 / +0 / +1 / +2 - the place where a cached latest arrival that is too late (or too early) shows"""
+    t = K.full_tour(c, c['tour'])
+    if not feasible_t(c, t):
+        return
+    legs = [i for i in range(len(t) - 1)]
+    if not legs:
+        return
+    idx = rng.choice(legs)
+
+    def ok(s):
+        x = {'loc': t[idx]['loc'], 'svc': s, 'tws': 0, 'twe': INF, 'dem': [0, 0, 0, 0], 'term': False}
+        return simulate_t(c, t[:idx + 1] + [x] + t[idx + 1:])[0]
+    best = None
+    for s in range(0, 260):
+        if ok(s):
+            best = s
+    if best is None or best >= 259:
+        return
+    s = max(0, best + rng.choice([-1, 0, 0, 1, 1, 2]))
+    c['job'] = {'id': 90, 'places': [{'loc': t[idx]['loc'], 'svc': s, 'tws': [[0, 'inf']]}], 'dem': [0, 0, 0, 0]}
+    c['pos'] = ['concrete', idx] if rng.chance(2, 3) else 'any'
 
 
 def corpus():
@@ -259,6 +295,8 @@ def td_duration(c, i, j, t):
     for a, b in zip(ms, ms[1:]):
         if t < b['ts']:
             va, vb = a['dur'][i * n + j], b['dur'][i * n + j]
+            if va < 0 or vb < 0:
+                return va        # a negative value marks an unreachable location: no interpolation through the marker
             num = (t - a['ts']) * (vb - va)
             den = b['ts'] - a['ts']
             return va + num // den if num % den == 0 else va + num / den
